@@ -54,6 +54,10 @@ def perform(act, sim, rec):
     p = _expand(act['path'], sim, rec)
     if not os.path.isabs(p):
         p = os.path.join(rec['cwd'], p)
+    if '<deleted>' in p:
+        # the child stands in a directory that does not exist any more: what it tries to do there fails - its own business
+        sim.ev('child_action_failed', tag=rec['tag'], op=op)
+        return
     if op == 'write_file':
         os.makedirs(os.path.dirname(p), exist_ok=True)
         with open(p, 'w') as f:
